@@ -226,3 +226,10 @@ TABLE_RNS_4K = [
     {"file": "src/util/basic.rs", "fn": "multiply_uint_u64", "model": "multiplyUintU64",
      "pre_text": float_erase([("return set_zero_uint($r);", 1, "set_zero_uint($r); return;")])},
 ]
+# Gen/Rns2Fns.lean (phase 4k): routines of src/util/rns.rs that call functions of Gen/Word2Fns.lean (generated after Gen/RnsFns.lean)
+TABLE_RNS2_4K = [
+    {"file": UR, "fn": "compose", "impl": "RNSBase", "lean": "rnsbase_compose", "model": "RNSBase.compose", "nested_loops": True,
+     "abstract": [("self.base.len()", "size", "Nat"), ("self.base[#]", "base", "List Modulus"),
+                  ("self.inv_punctured_prod_mod_base[#]", "invPunct", "List MulOperand"),
+                  ("self.punctured_prod[#]", "punct", "List (List Nat)"), ("self.base_prod", "baseProd", "List Nat")]},
+]
